@@ -18,6 +18,7 @@ import Jsonapi.Driver.JsonText
 import Jsonapi.Driver.Misc
 import Jsonapi.Driver.FilterJson
 import Jsonapi.Driver.Decode
+import Jsonapi.Driver.UrlRaw
 open Jsonapi Jsonapi.Driver
 
 structure DState where
@@ -70,6 +71,9 @@ def stepLine (st : DState) (line : String) : DState × String :=
     (st, m ++ "\t" ++ sp ++ "\t" ++ (if dom then "1" else "0"))
   | [.list (.atom "codec" :: args)] =>
     let (m, sp, dom) := stepCodec args
+    (st, m ++ "\t" ++ sp ++ "\t" ++ (if dom then "1" else "0"))
+  | [.list (.atom "urlraw" :: args)] =>
+    let (m, sp, dom) := stepUrlRaw args
     (st, m ++ "\t" ++ sp ++ "\t" ++ (if dom then "1" else "0"))
   | [.list (.atom "bytes2" :: args)] =>
     let (m, sp, dom) := stepBytes2 args
